@@ -1,4 +1,5 @@
 import Poupool.Proofs.ActorLib
+import Poupool.Model.Guards
 /-!
 # C07  Drain and backwash valves are confined to a bounded backwash cycle
 * `drain_backwash_only_in_wash`: for every message sequence the two valves are open only in `wash_backwash` /
@@ -53,5 +54,17 @@ def rinseExitPublishes : Bool :=
     (filtrationSafetyDesc.callbacks.getD Filtration.cb_on_exit_wash_rinse .skip)
 
 theorem rinse_exit_publishes : rinseExitPublishes = true := by decide +kernel
+
+/-! ## automatic start: only when due (Model/Guards.lean `startBackwash`, compared with the real `__start_backwash`) -/
+open Poupool.Guards in
+/-- the automatic backwash is requested only when at least `period` whole days have passed since the last one and the
+    tank is high; the dispatcher accepts periods 0..90 and the setter refuses < 2 (C14), so period ∈ 2..90 -/
+theorem auto_backwash_only_when_due (now last period : Int) (high : Bool) :
+    startBackwash now last period high = true → now - last ≥ period * 86400000000 ∧ high = true := by
+  intro h
+  simp only [startBackwash, Bool.and_eq_true, decide_eq_true_eq] at h
+  exact h
+
+example : Poupool.Guards.startBackwash (30 * 86400000000) 0 30 true = true := by decide
 
 end Poupool.C07
